@@ -111,6 +111,8 @@ type Unit struct {
 	nodeAnc        map[int]map[int]bool
 	freshErrs      []Term
 	assignCover    map[string]bool
+	prefixDone     map[string]bool
+	refHeaps       map[string]bool
 }
 
 func (u *Unit) note(format string, a ...any) { u.notes[fmt.Sprintf(format, a...)] = true }
@@ -123,7 +125,58 @@ func (u *Unit) heap(st *State, name string, sort Sort) Term {
 		return h
 	}
 	u.heapSort[name] = sort
-	return u.s.declConst(name+"@0", sort)
+	first := !u.s.declared["c:"+name+"@0"]
+	c := u.s.declConst(name+"@0", sort)
+	if first {
+		u.initialHeapWellFormed(name, c, sort)
+	}
+	return c
+}
+
+// initialHeapWellFormed: every reference stored in the heap at unit entry designates an object that
+// already exists (no dangling "future" references): needed to carry facts about old objects across
+// allocations.
+func (u *Unit) initialHeapWellFormed(name string, c Term, sort Sort) {
+	a0 := "alloc@0"
+	u.s.declConst(a0, SInt)
+	wf := func(v Term, srt string) Term {
+		switch srt {
+		case "Slc":
+			return and(sx("<=", sx("slc_arr", v), a0), sx(">=", sx("slc_arr", v), "0"))
+		case "Ifc":
+			return implies(sx("isPtrTag", sx("ifc_tag", v)), and(sx("<=", sx("ifc_pay", v), a0), sx(">=", sx("ifc_pay", v), "0")))
+		case "Int":
+			if u.refHeaps[name] {
+				return and(sx("<=", v, a0), sx(">=", v, "0"))
+			}
+		}
+		return "true"
+	}
+	s := string(sort)
+	switch {
+	case strings.HasPrefix(name, "HS$"):
+		if _, inner, ok := arraySorts(s); ok {
+			if _, el, ok := arraySorts(inner); ok {
+				if f := wf("(select (select "+c+" b) i)", el); f != "true" {
+					u.s.assumeGlobal(fmt.Sprintf("(forall ((b Int) (i Int)) (! %s :pattern ((select (select %s b) i))))", f, c))
+				}
+			}
+		}
+	case strings.HasPrefix(name, "H$") || strings.HasPrefix(name, "HB$"):
+		if _, el, ok := arraySorts(s); ok {
+			if f := wf("(select "+c+" r)", el); f != "true" {
+				u.s.assumeGlobal(fmt.Sprintf("(forall ((r Int)) (! %s :pattern ((select %s r))))", f, c))
+			}
+		}
+	case strings.HasPrefix(name, "HMv$"):
+		if _, inner, ok := arraySorts(s); ok {
+			if ks, el, ok := arraySorts(inner); ok {
+				if f := wf("(select (select "+c+" m) k)", el); f != "true" {
+					u.s.assumeGlobal(fmt.Sprintf("(forall ((m Int) (k %s)) (! %s :pattern ((select (select %s m) k))))", ks, f, c))
+				}
+			}
+		}
+	}
 }
 
 func (u *Unit) setHeap(st *State, name string, sort Sort, t Term) {
@@ -197,6 +250,9 @@ func (u *Unit) fieldLV(base *LV, field int) *LV {
 	st := u.structOf(base.ty)
 	f := st.Field(field)
 	if base.kind == lvObj {
+		if isPointerLike(f.Type()) {
+			u.refHeaps[u.fieldHeapName(base.cellT, f.Name())] = true
+		}
 		fs := u.ty.sortOf(f.Type())
 		return &LV{kind: lvField, heap: u.fieldHeapName(base.cellT, f.Name()), sort: arrSort(SInt, fs), ref: base.ref, cellT: f.Type(), ty: f.Type()}
 	}
@@ -953,7 +1009,7 @@ func (u *Unit) cutHeader(fn *ssa.Function, n *node, st *State, top bool) *State 
 	if l.spec != nil {
 		for _, g := range l.spec.Ghosts {
 			st = st.clone()
-			gs := u.ty.sortOf(g.goType(u.eng, fn.Pkg.Pkg))
+			gs := u.ty.sortOf(g.goType(u.eng, fnPkg(fn)))
 			if strings.TrimSpace(g.Init) == "any" {
 				u.heapSort[loopGhostHeap(fn, l, g.Name)] = gs
 				st.heaps[loopGhostHeap(fn, l, g.Name)] = u.s.fresh("lg_"+g.Name, gs)
@@ -983,7 +1039,7 @@ func (u *Unit) cutHeader(fn *ssa.Function, n *node, st *State, top bool) *State 
 	oldAlloc := u.alloc(st)
 	if l.spec != nil {
 		for _, g := range l.spec.Ghosts {
-			out.heaps[loopGhostHeap(fn, l, g.Name)] = u.s.fresh("lg_"+g.Name, u.ty.sortOf(g.goType(u.eng, fn.Pkg.Pkg)))
+			out.heaps[loopGhostHeap(fn, l, g.Name)] = u.s.fresh("lg_"+g.Name, u.ty.sortOf(g.goType(u.eng, fnPkg(fn))))
 		}
 	}
 	// automatic frame invariants: heaps the unit's contract does not allow to change on
@@ -1090,7 +1146,7 @@ func (u *Unit) keepEdge(fn *ssa.Function, n *node, e *edge, top bool) {
 			steps = append(steps, u.evalSpecInt(g.Step, pre, fn, l))
 		}
 		for i, g := range l.spec.Ghosts {
-			tmp.heaps[loopGhostHeap(fn, l, g.Name)] = u.s.define("lgstep", u.ty.sortOf(g.goType(u.eng, fn.Pkg.Pkg)), steps[i])
+			tmp.heaps[loopGhostHeap(fn, l, g.Name)] = u.s.define("lgstep", u.ty.sortOf(g.goType(u.eng, fnPkg(fn))), steps[i])
 		}
 	}
 	for _, k := range l.autoFrame {
